@@ -58,6 +58,22 @@ CHECKS['C03'] = dict(level='other', engine='gosym', design='4/C03',
    technique='symbolic execution of the type-compatibility decision kernel (go/ssa) over a pool of type pairs, SMT-backed path exploration',
    text='PARTIAL: only the decision kernel. checkTypeCompatibility / isImplicitlyCompatible are executed from their SSA for every ordered pair of a pool of 36 types; for pairs in a forbidden rule class of the catalogue (numeric narrowing, float->int, also into/between optionals; T? where T is required; &T where &\'T is required; number/bool/str conversions) the verdict must not be implicit.',
    note=_GO_NOTE + ' That checkNode/checkExpr reach every context, argument counts, name resolution, return checking and the errors-gate-codegen rule are NOT decided (traversals over pointer-rich ASTs have no symbolic content within this technique).')
+CHECKS['C15'] = dict(level='model_checking', engine='gosym', design='4/C15',
+   technique='symbolic execution of the dependency-graph code (go/ssa): edges and their arrival order are symbolic choices, all histories up to K explored',
+   text='AddDependency / findCycle / hasCyclePath / ComputeTopologicalOrder are executed from their SSA for every sequence of up to 4 (5 thorough) import edges over 3 modules (self-imports, repetitions, any arrival order; 9^K histories, the edge sequence is symbolic): an import is refused with a circular-import error exactly when it closes a cycle in the accepted graph (reference: transitive closure), the stored graph equals the accepted one, and the build order lists every module once, dependencies first, for both map iteration directions.',
+   note=_GO_NOTE + ' Mutexes are no-ops: the atomicity of check-then-insert under real concurrency, exactly-once module scheduling and cross-module symbol visibility are NOT decided.')
+CHECKS['C14'] = dict(level='other', engine='gosym', design='4/C14',
+   technique='symbolic execution of the diagnostic sorter and the module ordering (go/ssa) with the arrival interleaving and the map iteration direction as symbolic choices',
+   text='PARTIAL: (a) sortDiagnostics on 13 diagnostics of two concurrently parsed modules for all 1716 arrival interleavings (sort.Slice executed as Go\'s own pdqsort, sort.SliceStable as a stable sort): the emitted order must not depend on the interleaving; (b) the module build order after every import history of C15 for both map iteration directions.',
+   note=_GO_NOTE + ' NOT covered: real goroutine schedules of parsing, the process-global literal-ID counters (utils/literals.go), map iteration inside the QBE / wasm emitters (emitTypeIDs, vtables), byte identity of generated code.')
+CHECKS['C13'] = dict(level='other', engine='gosym', design='4/C13',
+   technique='bounded symbolic execution of the lexer (regular expressions matched symbolically) and of the diagnostic builder (go/ssa), z3',
+   text='PARTIAL: (a) lexer.Tokenize on every ASCII source up to 2 bytes (3 thorough): no panic, termination within the step budget, EOF-terminated token list, spans inside the input; (b) WithPrimaryLabel / WithSecondaryLabel / sortDiagnostics / HasErrors with nil-ness of locations and file names symbolic: no panic, HasErrors <=> an error diagnostic was added.',
+   note=_GO_NOTE + ' NOT covered: parser, collector, resolver and type checker on partial ASTs, exit status, left-over artifacts, multi-file projects, non-ASCII input.')
+CHECKS['C19'] = dict(level='other', engine='gosym', design='4/C19',
+   technique='bounded symbolic execution of Position.Advance and of the lexer on token-trivia-token strings (go/ssa, symbolic regex matching), z3',
+   text='PARTIAL: (a) Position.Advance for every ASCII string up to 3 bytes (4 thorough) and every split point: byte index, line count and split-independence of the column; (b) the real lexer on tok1 . whitespace . tok2 for 6 token pairs and every whitespace string of length <= 2 (3 thorough): same tokens as with one space, second token starts where the trivia ends.',
+   note=_GO_NOTE + ' NOT covered: comments as trivia, doc-comment attachment in the parser, acceptance and output of whole reformatted programs, diagnostics locations beyond the lexer.')
 NA_DEFAULT = 'check not built yet (work in progress, see DESIGN.md section 11)'
 NA = {}
 
